@@ -3,6 +3,7 @@
 #define SIM_EXEC2_H
 #include "sim_exec.h"
 #include "sim_fresh.h"
+#include <thread>
 
 static const char* op_owner(int op) {
   switch (op) {
@@ -36,6 +37,17 @@ static bool is_mutator(int op) {
   }
 }
 
+// End-of-run hook used by the forked copy of F6 (process exit): lists both registries and calls one evaluator on
+// whatever is selected.  Legal for a host program: its atexit handler was registered before the library was used.
+static bool g_probe_has_cur[2] = {false, false};
+static void exit_probe() {
+  MASA::masa_list_mms<double>();
+  MASA::masa_list_mms<long double>();
+  if (g_probe_has_cur[0]) (void)MASA::masa_eval_posterior_mean<double>();
+  if (g_probe_has_cur[1]) (void)MASA::masa_eval_posterior_mean<long double>();
+  std::cout.flush();
+}
+
 // instance under evaluation while a callback is pre-empted (never touched by nested steps)
 static int g_guard_prec = -1;
 static std::string g_guard_handle;
@@ -65,10 +77,21 @@ void Exec::exec_step(const Step& st, int depth) {
             st.k, st.len, hexf(st.val).c_str(), st.s.c_str());
     fflush(g_out);
   }
-  if (cl.prec == 0)
-    do_step<double>(st, cl, depth);
-  else
-    do_step<long double>(st, cl, depth);
+  // The caller of a step is usually the main thread; now and then it is another OS thread of the host program, started
+  // and joined at once (no concurrency, so nothing nondeterministic): state must not be tied to the calling thread.
+  const bool other_thread = depth == 0 && st.op != OP_EXIT_HERE && (st.u >> 41) % 40 == 7;
+  auto dispatch = [&] {
+    if (cl.prec == 0)
+      do_step<double>(st, cl, depth);
+    else
+      do_step<long double>(st, cl, depth);
+  };
+  if (other_thread) {
+    std::thread t(dispatch);
+    t.join();
+    fire("F8_other_caller_thread");
+  } else
+    dispatch();
   if (depth == 0) {
     Fnv f;
     f.str(step_out);
@@ -414,6 +437,13 @@ void Exec::do_step(const Step& st, const Client& cl, int depth) {
     for (auto& kv : cur->v) vn.push_back(kv.first);
   }
   auto unknown_name = [&](int a, bool vec) -> std::string {
+    if (cur && a % 7 == 5) {  // a registered name padded with blanks (what a Fortran caller might pass): not that name
+      const std::vector<std::string>& names = vec ? vn : pn;
+      if (!names.empty()) {
+        std::string n = names[(size_t)a % names.size()] + std::string((size_t)(1 + a % 3), ' ');
+        if (!(vec ? cur->v.count(n) : cur->p.count(n))) return n;
+      }
+    }
     if (!C && cur && a % 7 == 3) {  // a registered name, a NUL byte, more characters: not that name
       const std::vector<std::string>& names = vec ? vn : pn;
       if (!names.empty()) {
@@ -572,6 +602,19 @@ void Exec::do_step(const Step& st, const Client& cl, int depth) {
       if (st.b == 2 && !sol.fixture) {
         for (const std::string& n : pn) writes.push_back(std::make_pair(n, S(st.val)));
         admissible = false;
+      } else if (st.b == 3 && !sol.fixture && sol.name != "sod_1d") {
+        // a signed zero: +0, or the opposite sign if some parameter already holds a zero (numerically equal, other bits);
+        // evaluations stay allowed (divisions by zero give inf/NaN, which compare bit for bit like anything else)
+        std::string n = pn[(size_t)st.a % pn.size()];
+        S v = S(0.0);
+        for (auto& kv : cur->p)
+          if (kv.second == 0.0L) {
+            n = kv.first;
+            v = std::signbit((S)kv.second) ? S(0.0) : S(-0.0);
+            break;
+          }
+        writes.push_back(std::make_pair(n, v));
+        admissible = true;
       } else
       if (sol.name == "sod_1d" && admissible) {
         // any Gamma > 1 with 0 < mu < 1 keeps the root of sod_1d's pressure function bracketed, so mu need not be
@@ -594,8 +637,10 @@ void Exec::do_step(const Step& st, const Client& cl, int depth) {
           long double d = cur->p0.count(n) ? cur->p0[n] : 1.0L;
           v = this->template admissible<S>(d, st.c);
           if (bits_of(ms<S>(d)) == bits_of(marker<S>())) admissible = false;
-        } else
+        } else {
           v = S(st.val);
+          if (prec == 1 && (st.k & 1)) v = (S)((long double)st.val * 1e-2000L / 3.0L);  // four-digit exponent, all digits significant
+        }
         writes.push_back(std::make_pair(n, v));
       }
       for (auto& w : writes) {
@@ -705,6 +750,14 @@ void Exec::do_step(const Step& st, const Client& cl, int depth) {
       if (unexpected(co, "C11", "unknown name")) return;
       fire("F4_unknown_parameter_name");
       orc_eval("C11");
+      if (C) {
+        double x = 0;
+        CallOut cx = call(false, [&] { x = MASA::masa_get_param<double>(n); });
+        if (unexpected(cx, "C17", "get_param")) return;
+        orc_eval("C17");
+        if (bits_of((double)got) != bits_of(x))
+          viol("C17", "C17.get_param", "masa_get_param", "for the name \"" + n + "\" the C masa_get_param returns " + fmt_ld(got) + ", the C++ one " + fmt_ld(x));
+      }
       if (bits_of(got) != bits_of(S(-20)))
         viol("C11", st.op == OP_SET_UNKNOWN ? "C11.unknown.set.noinsert" : "C11.unknown.get", "unknown", "masa_get_param of the unknown name \"" + n + "\" returns " + fmt_ld(got) + " instead of -20");
       if (st.op == OP_SET_UNKNOWN) verify_selected<S>(prec, *cur, "C11", "C11.unknown.set");
@@ -1059,11 +1112,11 @@ void Exec::do_step(const Step& st, const Client& cl, int depth) {
         a.k = es.k;
         do_eval<S>(es, cl, ev, 1);
         if (stop) return;
-        if (!strcmp(g_evals[ev].sig, "i")) {  // enumeration: every moment order 0..400 once
+        if (!strcmp(g_evals[ev].sig, "i")) {  // enumeration: every moment order 0..4000 once
           eval_abs_k = true;
-          for (int k = 0; k <= 400 && !stop; ++k) {
+          for (int k = 0; k <= 4000 && !stop; ++k) {
             es.k = k;
-            skip_frame = k != 400;
+            skip_frame = k != 4000;
             do_eval<S>(es, cl, ev, 1);
           }
           skip_frame = false;
@@ -1191,7 +1244,10 @@ void Exec::do_step(const Step& st, const Client& cl, int depth) {
       pid_t pid = fork();
       if (pid < 0) sim_die("fork failed");
       if (pid == 0) {
-        g_expect_exit = 1;
+        g_probe_has_cur[0] = reg[0].has_cur;
+        g_probe_has_cur[1] = reg[1].has_cur;
+        g_exit_probe = &exit_probe;
+        g_expect_exit = (st.u & 1) ? 2 : 1;  // half of the copies use the library once more from their exit hook
         exit(0);
       }
       int status = 0;
